@@ -26,7 +26,7 @@ ID = 'C17'
 LEVEL = 'exploration'
 RULE = ('one case = (template, operation history, caller-data mode): all histories of length <= 3 '
         '(quick) / <= 4 (thorough) over {render ns1, ns2, ns3, pickle round trip, deepcopy, munge->src1, '
-        'munge->src2, cook} for each of the catalogue templates, each in two caller-data modes '
+        'munge->src2, munge->empty source, cook} for each of the catalogue templates, each in two caller-data modes '
         '(persistent: one container object per name refilled in place between renders; fresh: all '
         'objects rebuilt per render), a closing render appended when the last operation is not a '
         'render, plus seeded histories of length 4..8; a case is non-trivial when at least one render '
@@ -44,7 +44,7 @@ NSHARDS = {'quick': 16, 'thorough': 64}
 MAXLEN = {'quick': 3, 'thorough': 4}
 NSEEDED = {'quick': 6000, 'thorough': 100000}
 
-OPS = ('r1', 'r2', 'r3', 'pk', 'dc', 'm1', 'm2', 'ck')
+OPS = ('r1', 'r2', 'r3', 'pk', 'dc', 'm1', 'm2', 'm0', 'ck')     # m0: munge to the empty source
 KNOWN_TREE_SORT = 'tree-sort-in-place-on-callers-list'
 ROOTS = ('mapping', 'client', 'kw', 'defaults', 'constructor-mapping')
 
@@ -232,7 +232,7 @@ class Harness:
                 ctx.count('monitor:deepcopies')
                 self.scramble(cur, spec)
                 cur = new
-            elif op in ('m1', 'm2'):
+            elif op in ('m0', 'm1', 'm2'):
                 j = int(op[1])
                 source = spec.paths[j] if spec.is_file else spec.src[j]
                 try:
@@ -317,7 +317,7 @@ def run(ctx, spec):
                     h.run_history(spec_.name, hist, persistent, protos[(hi + persistent) % 2], 1 + hi % 3)
         # seeded longer histories
         rng = ctx.rng
-        weights = [3, 3, 3, 2, 2, 2, 2, 1]
+        weights = [3, 3, 3, 2, 2, 2, 2, 1, 1]
         for _ in range(NSEEDED[ctx.tier] // ctx.nshards):
             spec_ = rng.choice(U.SPECS)
             hist = tuple(rng.choices(OPS, weights, k=rng.randint(4, 8)))
